@@ -23,6 +23,7 @@ import (
 	"database/sql/driver"
 
 	"seata.apache.org/seata-go/pkg/tm"
+	"seata.apache.org/seata-go/pkg/util/log"
 )
 
 type FenceTx struct {
@@ -33,6 +34,11 @@ type FenceTx struct {
 
 func (tx *FenceTx) Commit() error {
 	if err := tx.TargetTx.Commit(); err != nil {
+		// the business transaction did not commit: the fence record must not either, and its transaction must not leak
+		tx.clearFenceTx()
+		if rbErr := tx.TargetFenceTx.Rollback(); rbErr != nil {
+			log.Error(rbErr)
+		}
 		return err
 	}
 
@@ -42,6 +48,10 @@ func (tx *FenceTx) Commit() error {
 
 func (tx *FenceTx) Rollback() error {
 	if err := tx.TargetTx.Rollback(); err != nil {
+		tx.clearFenceTx()
+		if rbErr := tx.TargetFenceTx.Rollback(); rbErr != nil {
+			log.Error(rbErr)
+		}
 		return err
 	}
 
